@@ -13,7 +13,7 @@ from .. import gen, ref
 LEVEL = 'exploration'
 RULE = ("A Hypothesis RuleBasedStateMachine drives one MultiValueTracker (base Welford or ExponentialSmoothing(alpha)) with update "
         "dictionaries over a pool of str/int/float/tuple keys, so late keys and omitted keys are frequent; value family is either "
-        "exact (ixv Q rationals: oracle is ==) or float (Python float/int, np.float64/float32/int64: oracle within rounding). Rules "
+        "exact (ixv Q rationals: oracle is ==) or float (Python float/int, np.float64/float32/int64/uint8/uint64: oracle within rounding). Rules "
         "'zero_out' and 'cancel' CONSTRUCT zero-sum states from the model state. After every update: keys == keys ever seen, every "
         "value == closed-form statistic of the key's zero-filled series since first appearance, N == number of update calls, "
         "get_normalized(): <=1 key -> raw; zero sum -> all 0.0 and finite; else ratios preserved and sum 1. Non-trivial: >=2 keys, "
@@ -22,7 +22,9 @@ ASSUMPTIONS = ["float family: 'zero sum' is decided by summing the reported raw 
                "if the orders disagree either outcome (zeros or finite ratio-preserving values) is accepted"]
 
 KEYS = ['a', 'b', 'output', 0, 1, 2.5, ('t', 1)]
-FTYPES = {'float': float, 'int': int, 'f64': np.float64, 'f32': np.float32, 'i64': np.int64}
+FTYPES = {'float': float, 'int': int, 'f64': np.float64, 'f32': np.float32, 'i64': np.int64,
+          # unsigned NumPy scalars are real numeric types too (0 - np.uint8(3) wraps around, np.uint8(3) - 0 does not)
+          'u8': lambda x: np.uint8(abs(int(x))), 'u64': lambda x: np.uint64(abs(int(x)))}
 
 
 def _mk(v, family):
